@@ -105,4 +105,24 @@ theorem table_ops_bound :
 /-- the consistency facts the no-panic theorem needs hold for every generated table -/
 theorem table_consistent (cfg : Nat) : tableOK (table cfg) = true := tables_ok cfg
 
+
+/-! ## Fork-flag reads on the C10 path are pinned (T-gen, go/ast scan of src/vm) -/
+
+/-- what the model accounts for: the interpreter builds its table from Proposal014/022/026 in
+`NewEVMInterpreter`; the gas functions the model transcribes read only `IsProposal026`; nothing
+in the opcode bodies, stack, memory, analysis or contract code reads a fork flag; every other
+read sits in a function outside the computational set (contract creation, SSTORE/LOG/CREATE2 gas). -/
+def forkReadOK (r : String × String × Nat) : Bool :=
+  let (file, fn, n) := r
+  if file == "interpreter.go" then fn == "NewEVMInterpreter" && (n == 14 || n == 22 || n == 26)
+  else if file == "gas_table.go" then
+    if fn == "memoryGasCost" || fn == "memoryCopierGas" || fn == "gasSha3" ||
+       fn == "gasExpFrontier" || fn == "gasExpEIP158" then n == 26
+    else fn == "gasSStore" || fn == "gasSStoreEIP2200" || fn == "makeGasLog" || fn == "gasCreate2"
+  else file == "evm.go" && fn == "create"
+
+/-- a new `common.IsProposalNNN()` / `.ProposalNNNBlock` read anywhere on the modelled path (for
+instance inside an opcode body) makes this obligation fail: the model would then be missing an input. -/
+theorem fork_reads_pinned : forkReads.all forkReadOK = true := by decide
+
 end Rangers.Props.C10
